@@ -454,6 +454,7 @@ func runC15(cfg Config) {
 		monitor(fmt.Sprintf("unexpected entries next to the served stores: %d", len(ents)), "disk", "")
 	}
 	c15CLI(cfg, rep, rng)
+	storeOptsServers(cfg, rep, m, rng)
 	rep.Write(cfg.Out)
 }
 
